@@ -92,13 +92,28 @@ def sh(cmd, **kw):
     return subprocess.run(cmd, env=ENV, **kw)
 
 
+def altmod():
+    """VERIF_REPO_DIR=<dir> builds against a copy of the repository instead of /repo (used only for background
+    sweeps that must not be disturbed by edits to /repo; registered checks always build /repo itself)."""
+    d = os.environ.get("VERIF_REPO_DIR")
+    if not d:
+        return []
+    mod = open(os.path.join(HARNESS, "go.mod")).read().replace("=> /repo", "=> " + d)
+    alt = os.path.join(VERIF, ".work", "alt.%d.mod" % os.getpid())
+    os.makedirs(os.path.dirname(alt), exist_ok=True)
+    open(alt, "w").write(mod)
+    shutil.copy(os.path.join(HARNESS, "go.sum"), alt[:-4] + ".sum")
+    return ["-modfile=" + alt]
+
+
 def build(kinds):
     os.makedirs(BIN, exist_ok=True)
+    extra = altmod()
     for k in kinds:
         out = os.path.join(BIN, "vwork." + k)
         tmp = out + ".%d" % os.getpid()
         t0 = time.time()
-        p = sh(["go", "build"] + BUILD_FLAGS[k] + ["-o", tmp, "./cmd/vwork"], cwd=HARNESS,
+        p = sh(["go", "build"] + extra + BUILD_FLAGS[k] + ["-o", tmp, "./cmd/vwork"], cwd=HARNESS,
                stdout=subprocess.PIPE, stderr=subprocess.STDOUT, text=True)
         if p.returncode != 0:
             sys.stdout.write(p.stdout)
